@@ -1,7 +1,127 @@
 import ASV.Drv.J
+import ASV.Spec.RegionExtract
 namespace ASV.Drv.C12
-open Lean ASV ASV.Drv
+open Lean ASV ASV.Drv ASV.RegionExtract
 
-def handle (_j : Json) : R Json := throw "C12: no model yet"
+def optInt (j : Json) (k : String) : R (Option Int) :=
+  match j.getObjVal? k with
+  | .ok .null => pure none
+  | .ok v => do return some (← asInt v)
+  | .error _ => pure none
+def optStr (j : Json) (k : String) : R (Option String) :=
+  match j.getObjVal? k with
+  | .ok .null => pure none
+  | .ok v => do return some (← asStr v)
+  | .error _ => pure none
+def optInts (j : Json) (k : String) : R (Option (List Int)) :=
+  match j.getObjVal? k with
+  | .ok .null => pure none
+  | .ok v => do return some (← listOf asInt v)
+  | .error _ => pure none
+
+def qualsOfJson (j : Json) : R Quals := do
+  return { candNumbers := (← optInts j "candidate_cluster_numbers").getD [],
+           subNumbers := (← optInts j "subregion_numbers").getD [],
+           candNumber := ← optInt j "candidate_cluster_number",
+           protoNumbers := ← optInts j "protoclusters",
+           protoNumber := ← optInt j "protocluster_number",
+           coreLoc := ← optStr j "core_location",
+           subNumber := ← optInt j "subregion_number",
+           leaderLoc := ← optStr j "leader_location",
+           tailLoc := ← optStr j "tail_location" }
+
+def optJ {α} (f : α → Json) : Option α → List (String × Json) → String → List (String × Json)
+  | some v, acc, k => acc ++ [(k, f v)]
+  | none, acc, _ => acc
+
+def qualsToJson (q : Quals) : Json :=
+  let acc : List (String × Json) := []
+  let acc := if q.candNumbers.isEmpty then acc else acc ++ [("candidate_cluster_numbers", jInts q.candNumbers)]
+  let acc := if q.subNumbers.isEmpty then acc else acc ++ [("subregion_numbers", jInts q.subNumbers)]
+  let acc := optJ (fun (i : Int) => toJson i) q.candNumber acc "candidate_cluster_number"
+  let acc := optJ jInts q.protoNumbers acc "protoclusters"
+  let acc := optJ (fun (i : Int) => toJson i) q.protoNumber acc "protocluster_number"
+  let acc := optJ Json.str q.coreLoc acc "core_location"
+  let acc := optJ (fun (i : Int) => toJson i) q.subNumber acc "subregion_number"
+  let acc := optJ Json.str q.leaderLoc acc "leader_location"
+  let acc := optJ Json.str q.tailLoc acc "tail_location"
+  jObj acc
+
+def featureOfJson (j : Json) : R BioFeature := do
+  return { tag := ← intF j "src", type := ← strF j "type", loc := ← locOfJson (← fld j "loc"),
+           q := ← qualsOfJson (← fld j "q") }
+
+def featureToJson (f : BioFeature) : Json :=
+  jObj [("src", toJson f.tag), ("type", Json.str f.type), ("loc", locToJson f.loc), ("q", qualsToJson f.q)]
+
+def regionDataOfJson (j : Json) : R RegionData := do
+  let cands ← listOf (fun c => do
+    let protos ← listOf (fun p => do
+      return ({ number := ← intF p "n", loc := ← locOfJson (← fld p "loc"), core := ← locOfJson (← fld p "core") } : ProtoArea))
+      (← fld c "protos")
+    return ({ number := ← intF c "n", loc := ← locOfJson (← fld c "loc"), protos := protos } : CandArea)) (← fld j "cands")
+  let subs ← listOf (fun s => do return ({ number := ← intF s "n", loc := ← locOfJson (← fld s "loc") } : Area)) (← fld j "subs")
+  return { start := ← intF j "start", «end» := ← intF j "end", cands := cands, subs := subs }
+
+def ivsToJson (l : List Iv) : Json := jArr (l.map fun x => jArr [toJson x.1, toJson x.2])
+
+def locOK (L : Int) (l : Loc) : Bool :=
+  !l.parts.isEmpty && l.parts.all fun p => decide (0 ≤ p.lo) && decide (p.lo < p.hi) && decide (p.hi ≤ L)
+
+def handleRegion (circular : Bool) (L : Int) (rec : BioRecord) (j : Json) : R Json := do
+  let rd ← regionDataOfJson (← fld j "data")
+  let m := writeToGenbank rd rec
+  let modelJ := match m with
+    | .error e => jObj [("err", Json.str e)]
+    | .ok w => jObj [("ok", jObj [
+        ("seq", Json.str (String.ofList w.extract.seq)),
+        ("features", jArr (w.extract.features.map featureToJson)),
+        ("orig_start", Json.str w.extract.annotations.origStart),
+        ("orig_end", Json.str w.extract.annotations.origEnd),
+        ("cross_note", toJson w.extract.annotations.crossNote),
+        ("parent_same", toJson (w.parentAfter == rec.features)),
+        ("parent_touched", toJson (w.parentBeforeRestore != rec.features))])]
+  -- executable spec on what the implementation wrote
+  let onImpl ← match j.getObjVal? "impl" with
+    | .ok (.obj o) => do
+      let ij := Json.obj o
+      let fs ← listOf featureOfJson (← fld ij "features")
+      let same := fs.map fun g =>
+        match rec.features.find? (·.tag == g.tag) with
+        | some f => f.type == g.type && sameBasesB L rd f.loc g.loc
+        | none => false
+      pure (jObj [
+        ("same_bases", jArr (same.map fun (b : Bool) => toJson b)),
+        ("protos_numbered", toJson (numberedAsLoaded (·.q.protoNumber) (ofType "protocluster" fs))),
+        ("cands_numbered", toJson (numberedAsLoaded (·.q.candNumber) (ofType "cand_cluster" fs))),
+        ("subs_numbered", toJson (numberedAsLoaded (·.q.subNumber) (ofType "subregion" fs))),
+        ("refs_in_range", toJson (refsInRange fs)),
+        ("cores_agree", toJson (coresAgree fs)),
+        ("one_region", toJson (oneRegion L rd fs)),
+        ("refs_consistent", toJson (refsConsistent rec.features fs)),
+        ("motif_locs", toJson (motifLocsOk L rd rec.features fs)),
+        ("inside_kept", toJson (insideKept L rd rec.features fs))])
+    | _ => pure Json.null
+  let locs ← match j.getObjVal? "locs" with
+    | .ok v => listOf locOfJson v
+    | .error _ => pure []
+  let images := locs.map fun l => jObj [("inside", toJson (insideRegion L rd l)), ("canon", ivsToJson (imageCanon L rd l))]
+  return jObj [("model", modelJ), ("on_impl", onImpl),
+               ("expected_seq", Json.str (String.ofList (expectedSeq L rd rec.seq))),
+               ("region_len", toJson (regionLen L rd)),
+               ("images", jArr images),
+               ("scope", toJson (wfInput rd rec && linked rd rec)),
+               ("scope_wf", toJson (wfInput rd rec)),
+               ("kf_prepeptide_cut", toJson (prepeptideCut L rd rec.features)),
+               ("kf_equal_areas", toJson (equalAreas rd)),
+               ("kf_exons_span_file", toJson (exonsSpanFile circular L rd rec.features))]
+
+def handle (j : Json) : R Json := do
+  let seq ← strF j "seq"
+  let parent ← listOf featureOfJson (← fld j "parent")
+  let record : BioRecord := { seq := seq.toList, features := parent }
+  let L := record.length
+  let regions ← (← arrF j "regions").mapM (handleRegion (boolFD j "circular" true) L record)
+  return jObj [("regions", jArr regions)]
 
 end ASV.Drv.C12
